@@ -16,7 +16,7 @@ from . import common, rel, tlc
 
 TIERS = {
     "quick": dict(qsample=45, sim_num=15, tlc_orders=3, threads=[4], templates=1),
-    "thorough": dict(qsample=400, sim_num=200, tlc_orders=12, threads=[2, 8, 16], templates=4),
+    "thorough": dict(qsample=400, sim_num=45, tlc_orders=12, threads=[2, 8, 16], templates=4),
 }
 
 
